@@ -1249,8 +1249,9 @@ def c31(ctx):
     c31_decimal(ctx, "lift-dev")
     c31_sat(ctx, "dev")
     if ctx.tier == "thorough":
+        # release MIR (wrapping arithmetic): the sat notations finish (~8 min); Decimal::from_str
+        # under wrapping pow/mul does not (>15 min per run) and is therefore not part of the tier
         c31_sat(ctx, "rel")
-        c31_decimal(ctx, "lift-rel")
 
 
 # =========================================================================== C32
@@ -1286,7 +1287,7 @@ def c32(ctx):
     n = z3.Int("n")
     MAXL = 28
 
-    PRINT_LEN = 7 if ctx.tier == "quick" else 8
+    PRINT_LEN = 7
     print_max = sum(26 ** i for i in range(1, PRINT_LEN + 1)) - 1     # last name with PRINT_LEN letters
 
     def ob_print_parse(ob):
@@ -1956,7 +1957,216 @@ def _rep_fifo(ctx, v, shape, nout):
     return None
 
 
-PROPS = {"C29": c29, "C33": c33, "C34": c34, "C31": c31, "C32": c32, "C25": c25, "C01": c01}
+# =========================================================================== C09
+
+def c09(ctx):
+    from .mirmodels import Container
+    U64, U32 = 2 ** 64 - 1, 2 ** 32 - 1
+
+    def rid(name):
+        b, t = z3.Int(name + "_block"), z3.Int(name + "_tx")
+        return Struct([b, t]), [b >= 0, b <= U64, t >= 0, t <= U32, z3.Or(b > 0, t == 0)], {name + "_block": b, name + "_tx": t}
+
+    def make_body(kind, nout, nun, ne, mint, etched, pointer):
+        """kind 0 none / 1 cenotaph / 2 runestone; nun input runes; ne edicts; mint: None/'closed'/'open';
+        etched: bool; pointer: bool"""
+        def body(ob):
+            exq = ob.ex()
+            pre, vars_ = [], {}
+            opret = [z3.Bool("opret%d" % k) for k in range(nout)]
+            for k, b in enumerate(opret):
+                vars_["opret%d" % k] = b
+            un_ids, un_bals = [], []
+            for i in range(nun):
+                r, c, v = rid("in%d" % i)
+                bal = z3.Int("in%d_bal" % i)
+                pre += c + [bal >= 0, bal <= U128]
+                vars_.update(v); vars_["in%d_bal" % i] = bal
+                un_ids.append(r); un_bals.append(bal)
+            for i in range(nun):
+                for j in range(i):
+                    pre.append(z3.Or(un_ids[i][0] != un_ids[j][0], un_ids[i][1] != un_ids[j][1]))   # map keys are distinct
+            mint_id = mint_amt = None
+            if mint:
+                mint_id, c, v = rid("mint")
+                pre += c; vars_.update(v)
+                if mint == "open":
+                    mint_amt = z3.Int("mint_amount")
+                    pre += [mint_amt >= 0, mint_amt <= U128]; vars_["mint_amount"] = mint_amt
+            et_id = None
+            premine = 0
+            if etched:
+                et_id, c, v = rid("etched")
+                pre += c + [et_id[0] >= 1]; vars_.update(v)
+                premine = z3.Int("premine"); pre += [premine >= 0, premine <= U128]; vars_["premine"] = premine
+            edicts = []
+            for e in range(ne):
+                r = Struct([z3.Int("e%d_block" % e), z3.Int("e%d_tx" % e)])
+                amt, outp = z3.Int("e%d_amount" % e), z3.Int("e%d_output" % e)
+                pre += [r[0] >= 0, r[0] <= U64, r[1] >= 0, r[1] <= U32, z3.Or(r[0] > 0, r[1] == 0), amt >= 0, amt <= U128, outp >= 0, outp <= nout]
+                vars_.update({"e%d_block" % e: r[0], "e%d_tx" % e: r[1], "e%d_amount" % e: amt, "e%d_output" % e: outp})
+                edicts.append(Struct([r, amt, outp]))          # Edict { id, amount, output }
+            ptr = None
+            if pointer:
+                ptr = z3.Int("pointer"); pre += [ptr >= 0, ptr < nout]; vars_["pointer"] = ptr
+            # supply conservation keeps every per-rune sum inside u128 (C08's invariant): assumed
+            total = sum(un_bals, z3.IntVal(0)) + (mint_amt if mint_amt is not None else 0) + (premine if etched else 0)
+            pre.append(total <= U128)
+            ob.vars = vars_
+
+            def opt(v):
+                return Enum("Option", 1, [v]) if v is not None else Enum("Option", 0, [])
+            # ---- the artifact handed back by the (overridden) Runestone::decipher
+            if kind == 0:
+                artifact = Enum("Option", 0, [])
+            elif kind == 1:
+                artifact = opt(Enum("Artifact", 0, [Struct([Enum("Option", 0, []), opt(Enum("Flaw", 0, [])), opt(mint_id)])]))
+            else:
+                etching = opt(Struct([Enum("Option", 0, []), opt(premine if etched else None) if etched else Enum("Option", 0, []), Enum("Option", 0, []),
+                                      Enum("Option", 0, []), Enum("Option", 0, []), Enum("Option", 0, []), False])) if etched else Enum("Option", 0, [])
+                artifact = opt(Enum("Artifact", 1, [Struct([Container("vec", edicts), etching, opt(mint_id), opt(ptr)])]))
+            import copy as _copy
+            written = []
+            def dr(v):
+                while isinstance(v, X.Ref):
+                    v = v.get()
+                return v
+            def ov_insert(ex, st_, args):
+                st_.keep[0].append((_copy.deepcopy(dr(args[1])), _copy.deepcopy(list(dr(args[2])))))
+                return Enum("Result", 0, [Struct([])])
+            def ov_encode(ex, st_, args):
+                buf = args[2].get() if isinstance(args[2], X.Ref) else args[2]
+                while isinstance(buf, X.Ref):
+                    buf = buf.get()
+                buf.append(Struct([args[0], args[1]]))
+                return Struct([])
+            exq.overrides = {
+                "Runestone::decipher": lambda ex, st_, args: _copy.deepcopy(artifact),
+                "RuneUpdater::<'_>::unallocated": lambda ex, st_, args: Enum("Result", 0, [Container("map", [Struct([_copy.deepcopy(i), Struct([b])]) for i, b in zip(un_ids, un_bals)])]),
+                "RuneUpdater::<'_>::mint": lambda ex, st_, args: Enum("Result", 0, [opt(Struct([mint_amt])) if mint_amt is not None else Enum("Option", 0, [])]),
+                "RuneUpdater::<'_>::etched": lambda ex, st_, args: Enum("Result", 0, [opt(Struct([_copy.deepcopy(et_id), Struct([0])])) if etched else Enum("Option", 0, [])]),
+                "RuneUpdater::<'_>::create_rune_entry": lambda ex, st_, args: Enum("Result", 0, [Struct([])]),
+                "BalanceTable::insert": ov_insert,
+                "encode_rune_balance": ov_encode,
+                "OutPoint as entry::Entry>::store": lambda ex, st_, args: Struct([args[0][1]]),     # keep the vout
+            }
+            try:
+                outputs = Container("vec", [Struct([Struct([0]), X.Opaque("script", {"op_return": opret[k]})]) for k in range(nout)])
+                tx = Struct([2, 0, Container("vec", []), outputs])
+                table = X.Ref([Struct([Container("vec", [])])], (), True)
+                updc = [Struct([Container("map", []), Enum("Option", 0, []), 840000, table, X.Opaque("stub")])]
+                st = X.State(); st.pc = list(pre)
+                st.keep = ([], updc)
+                f = exq.find_fn("rune_updater_extract::_::index_runes")
+                res = exq.run(f, [X.Ref(updc, (), True), 1, X.Ref([tx]), Struct([X.Opaque("txid")])], st)
+            finally:
+                exq.overrides = {}
+            ob.paths += len(res)
+            # reference input (RefIn field order)
+            zero = Struct([0, 0])
+            def pad(lst, n, fill):
+                return Struct(list(lst) + [_copy.deepcopy(fill) for _ in range(n - len(lst))])
+            for r in res:
+                if r.kind != "return":
+                    ob.reach(r.pc, "index_runes panics: " + r.msg)
+                    continue
+                if r.value.variant != 0:
+                    ob.reach(r.pc, "index_runes returns an error")
+                    continue
+                inserted, updc2 = r.keep
+                burned_map = updc2[0][0]
+                refin = Struct([nout, pad(opret, 3, False), kind, nun, pad(un_ids, 3, zero), pad(un_bals, 3, 0),
+                                opt(mint_id), opt(mint_amt), opt(et_id), premine,
+                                ne, pad(edicts, 2, Struct([Struct([0, 0]), 0, 0])), opt(ptr)])
+                st2 = X.State(); st2.pc = list(r.pc)
+                for r2 in exq.run("ref_allocate", [X.Ref([refin])], st2):
+                    ob.paths += 1
+                    if r2.kind != "return":
+                        # the reference only panics on u128 overflow, excluded by the supply assumption
+                        ob.reach(r2.pc, "reference overflow although total supply fits u128: " + r2.msg)
+                        continue
+                    nr, ids, outm, burned = r2.value
+                    if not X.is_conc(nr):
+                        raise Unsupported("reference slot count is symbolic")
+                    conds = []
+                    # real data: per output vout -> list of (id, balance)
+                    real_out = {}
+                    for key, buf in inserted:
+                        vout = key[0]
+                        if not X.is_conc(vout):
+                            raise Unsupported("symbolic vout in a stored outpoint")
+                        real_out[vout] = buf
+                    for s_ in range(nr):
+                        sid = ids[s_]
+                        for k in range(nout):
+                            want = outm[s_][k]
+                            got = z3.IntVal(0)
+                            for pair in real_out.get(k, []):
+                                pid, pbal = pair[0], pair[1]
+                                got = got + z3.If(z3.And(X.zint(pid[0]) == X.zint(sid[0]), X.zint(pid[1]) == X.zint(sid[1])), X.zint(pbal), 0)
+                            conds.append(got == X.zint(want))
+                        gotb = z3.IntVal(0)
+                        for pair in burned_map:
+                            gotb = gotb + z3.If(z3.And(X.zint(pair[0][0]) == X.zint(sid[0]), X.zint(pair[0][1]) == X.zint(sid[1])), X.zint(pair[1][0]), 0)
+                        conds.append(gotb == X.zint(burned[s_]))
+                    # nothing is stored for a rune the reference does not know, no zero balances,
+                    # nothing on OP_RETURN outputs, each stored list sorted by id without repeats
+                    for k, buf in real_out.items():
+                        conds.append(z3.Not(opret[k]))
+                        for pair in buf:
+                            conds.append(X.zint(pair[1]) > 0)
+                            conds.append(z3.Or(*[z3.And(X.zint(pair[0][0]) == X.zint(ids[s_][0]), X.zint(pair[0][1]) == X.zint(ids[s_][1])) for s_ in range(nr)]) if nr else z3.BoolVal(False))
+                        for a_, b_ in zip(buf, buf[1:]):
+                            conds.append(z3.Or(X.zint(a_[0][0]) < X.zint(b_[0][0]), z3.And(X.zint(a_[0][0]) == X.zint(b_[0][0]), X.zint(a_[0][1]) < X.zint(b_[0][1]))))
+                    for pair in burned_map:
+                        conds.append(z3.Or(*[z3.And(X.zint(pair[0][0]) == X.zint(ids[s_][0]), X.zint(pair[0][1]) == X.zint(ids[s_][1])) for s_ in range(nr)]) if nr else z3.BoolVal(False))
+                    ob.query(r2.pc, z3.And(*conds) if conds else True, ob.vars, "allocation differs from the specification")
+        return body
+
+    if ctx.tier == "quick":
+        scen = [(0, 2, 1, 0, None, False, False), (1, 2, 2, 0, "open", False, False), (2, 2, 1, 1, None, False, False),
+                (2, 2, 1, 1, None, False, True), (2, 3, 1, 1, "open", False, False), (2, 2, 1, 1, None, True, False), (2, 2, 2, 1, None, False, False)]
+    else:
+        scen = [(0, 1, 1, 0, None, False, False), (0, 3, 2, 0, None, False, False), (1, 2, 2, 0, "open", False, False), (1, 2, 1, 0, "closed", False, False),
+                (2, 2, 0, 0, "open", False, True), (2, 2, 1, 1, None, False, False), (2, 2, 1, 1, None, False, True), (2, 3, 1, 1, "open", False, False),
+                (2, 2, 1, 1, None, True, False), (2, 2, 2, 1, None, False, False), (2, 3, 2, 1, None, False, True), (2, 2, 1, 2, None, False, False),
+                (2, 2, 1, 2, None, True, True), (2, 3, 1, 2, "open", False, False)]
+    for kind, nout, nun, ne, mint, etched, pointer in scen:
+        name = "c09_alloc_k%d_o%d_in%d_e%d%s%s%s" % (kind, nout, nun, ne, "_mint" + mint if mint else "", "_etch" if etched else "", "_ptr" if pointer else "")
+        guarded(ctx, name,
+                "one transaction: the rune balances stored per output and the burned amounts equal what the specification reference allocates (edicts in order with capping, amount 0 = all, output == n = every non-OP_RETURN output / even split with remainder first, 0:0 = etched rune, leftovers to pointer or first non-OP_RETURN output, OP_RETURN allocations and cenotaphs burn)",
+                "%s, %d outputs with arbitrary OP_RETURN flags, %d input runes, %d edicts%s%s%s; all ids/amounts/outputs symbolic; per-rune totals assumed to fit u128" % (["no runestone", "cenotaph", "runestone"][kind], nout, nun, ne, ", mint " + mint if mint else "", ", etching with premine" if etched else "", ", pointer" if pointer else ""),
+                "lift-dev", make_body(kind, nout, nun, ne, mint, etched, pointer),
+                lambda v, a=(kind, nout, nun, ne, mint, etched, pointer): _rep_runes(ctx, v, *a))
+
+
+def _rep_runes(ctx, v, kind, nout, nun, ne, mint, etched, pointer):
+    from . import kani as K
+    crate = K.gen_lift()
+    def b(x):
+        return "1" if str(x) == "True" or x is True else "0"
+    opret = "".join(b(v.get("opret%d" % k, False)) for k in range(nout))
+    ins = ",".join("%d:%d:%d" % (v["in%d_block" % i], v["in%d_tx" % i], v["in%d_bal" % i]) for i in range(nun))
+    m = "-"
+    if mint:
+        m = "%d:%d:%s" % (v["mint_block"], v["mint_tx"], v["mint_amount"] if mint == "open" else "-")
+    e = "%d:%d:%d" % (v["etched_block"], v["etched_tx"], v["premine"]) if etched else "-"
+    eds = ",".join("%d:%d:%d:%d" % (v["e%d_block" % i], v["e%d_tx" % i], v["e%d_amount" % i], v["e%d_output" % i]) for i in range(ne))
+    ptr = str(v["pointer"]) if pointer else "-"
+    spec = "|".join([str(kind), str(nout), opret, ins, m, e, eds, ptr])
+    env = C.env({"VREPLAY_RUNES": spec, "CARGO_TARGET_DIR": os.path.join(C.BUILD, "t-liftk-replay")})
+    p = subprocess.run(["cargo", "test", "--offline", "--lib", "vreplay_runes", "--", "--nocapture"], cwd=crate, env=env,
+                       stdout=subprocess.PIPE, stderr=subprocess.STDOUT, universal_newlines=True, timeout=1800)
+    out = p.stdout
+    if "running 1 test" not in out:
+        raise RuntimeError("replay test did not run: " + out[-600:])
+    if "test result: FAILED" in out:
+        mm = re.search(r"panicked at [^\n]*\n([^\n]*(?:\n[^\n]*){0,3})", out)
+        return {"scenario": spec, "native": (mm.group(1) if mm else "assertion failed")[:400]}
+    return None
+
+
+PROPS = {"C29": c29, "C33": c33, "C34": c34, "C31": c31, "C32": c32, "C25": c25, "C01": c01, "C09": c09}
 
 
 def main():
